@@ -86,9 +86,26 @@ contract(MS_, "Shard.write", props=["C10", "C18", "C04"],
         ("C18", "implies(self._shard_writer is not None, self._shard_writer.nrec == old(self._shard_writer.nrec))"),
     ]})
 
+contract("sedpack/io/shard/get_shard_writer.py", "get_shard_writer", props=["C10", "C18", "C04"],
+    params={"dataset_structure": "ref:DatasetStructure", "shard_file": "U"}, returns="ref:ShardWriterBase",
+    modifies=["ghost:fs"], fs_effects=[],      # may create the directory; no file is touched
+    ensures=["fresh(result)", "result.path == shard_file", "result.nrec == 0 and not result.closed"],
+    verify=False, assumed=True,
+    note="dispatch table from shard_file_type to the three writer classes and their constructors (mkdir, "
+         "compression check); the writers' _write / close are verified against the abstract Writer view")
+contract(MS_, "Shard.__init__", props=["C10", "C18", "C04"],
+    params={"shard_info": "ref:ShardInfo", "dataset_structure": "ref:DatasetStructure", "dataset_root_path": "U"},
+    requires=["len(shard_info.file_infos) >= 1"],
+    modifies=["Shard.shard_info@self", "Shard.dataset_structure@self", "Shard._dataset_path@self", "Shard._shard_writer@self", "ghost:fs"],
+    fs_effects=[],
+    ensures=["self.shard_info is shard_info and self.dataset_structure is dataset_structure and self._dataset_path == dataset_root_path",
+             "self._shard_writer is not None and fresh(self._shard_writer)",
+             "self._shard_writer.path == SHARD_PATH(self) and self._shard_writer.nrec == 0 and not self._shard_writer.closed"])
+
 # ---- filler context -----------------------------------------------------------
-contract(MF, CTX + "._get_new_shard", props=["C10", "C11", "C18"],
+contract(MF, CTX + "._get_new_shard", props=["C10", "C11", "C18", "C17"],
     params={"split": "U"}, returns="ref:Shard",
+    requires=[("C17", "SAFE(split) and SAFE(self._relative_path_from_split)")],
     modifies=["ghost:fs"], fs_effects=[],      # creates the directory only; no file is touched
     ensures=[
         "result >= old_next_ref()",                       # a fresh object
@@ -98,11 +115,12 @@ contract(MF, CTX + "._get_new_shard", props=["C10", "C11", "C18"],
         "result.shard_info.number_of_examples == 0",
         "result._shard_writer.nrec == 0 and not result._shard_writer.closed",
         "not truthy(result.shard_info.custom_metadata)",
-        "SHARD_OK(result) and result._dataset_path == self._dataset_root_path and not isdisk(result.shard_info)",
+        "SHARD_OK(result) and result._dataset_path == self._dataset_root_path",
+        # A-PYD (sharing model of dump / parse): an info object constructed here has not been written to a list
+        # document, so it is not (yet) an entry of a parsed document
+        "assumed: not isdisk(result.shard_info)",
         "SHARD_IN(result, split, self._relative_path_from_split)",
-    ],
-    verify=False, assumed=True,
-    note="constructor glue (Shard.__init__, get_shard_writer, pydantic ShardInfo/FileInfo); checked by the run-time contract in harness/c_filler.py")
+    ])
 
 _WE_MOD = ["ShardProgress.shard", "ShardProgress.written_examples",
            "ShardInfo.number_of_examples", "ShardInfo.custom_metadata", "Writer.nrec",
